@@ -105,11 +105,18 @@ def coerce_float(maybe_float: _ScalarValue) -> float:
         raise ValueError("Float cannot represent non numeric value: None")
 
     try:
-        return float(maybe_float)
+        numeric = float(maybe_float)
     except ValueError:
         raise ValueError(
             "Float cannot represent non numeric value: %s" % maybe_float
         )
+
+    if numeric != numeric or numeric in (float("inf"), float("-inf")):
+        raise ValueError(
+            "Float cannot represent non finite value: %s" % maybe_float
+        )
+
+    return numeric
 
 
 _coerce_int_node = _typed_coerce(coerce_int, _ast.IntValue)
